@@ -38,6 +38,10 @@ pub enum Case15 {
         /// outputs of very different magnitudes, down to probabilities far below 1e-12 (0: ordinary outputs)
         #[serde(default)]
         wide: u8,
+        /// the target's dimensions when they differ from the output's (broadcast-compatible: the difference
+        /// target - output follows the library's broadcasting, the divisor stays the OUTPUT's element count)
+        #[serde(default)]
+        tdims: Option<Vec<usize>>,
     },
 }
 
@@ -52,7 +56,7 @@ fn cmp_t(what: &str, got: &corgi::array::Array, want: &T, exact: bool) -> Result
 impl Case15 {
     fn check(&self) -> Result<bool, (String, String)> {
         match self {
-            Case15::Cost { kind, dims, seed, wide } => {
+            Case15::Cost { kind, dims, seed, wide, tdims } => {
                 let n = numel(dims);
                 let o = match *wide {
                     0 => gen_vals(*seed, n, VKind::Pos),
@@ -61,10 +65,11 @@ impl Case15 {
                     2 => wide_vals(*seed, n, if IS_F32 { -30 } else { -300 }, if IS_F32 { 30 } else { 300 }, false).into_iter().map(|v: f64| v.min(1.0)).collect(),
                     _ => wide_vals(*seed, n, 0, if IS_F32 { 20 } else { 60 }, *kind == CostKind::Mse),
                 };
-                let t = gen_vals(seed ^ 5, n, if *kind == CostKind::Mse { VKind::Signed } else { VKind::Pos });
-                let want = ref_cost(*kind, &T::from_f64(dims, &o), &T::from_f64(dims, &t)).map_err(|e| ("internal".to_string(), format!("{:?}", e)))?;
+                let td: &Vec<usize> = tdims.as_ref().unwrap_or(dims);
+                let t = gen_vals(seed ^ 5, numel(td), if *kind == CostKind::Mse { VKind::Signed } else { VKind::Pos });
+                let want = ref_cost(*kind, &T::from_f64(dims, &o), &T::from_f64(td, &t)).map_err(|e| ("internal".to_string(), format!("{:?}", e)))?;
                 let f = make_cost(*kind);
-                let got = guarded(|| f(&arr(dims, &o), &arr(dims, &t))).map_err(|p| ("unexpected-panic:cost".to_string(), format!("{:?} cost on dims {:?} panicked: {}", kind, dims, p)))?;
+                let got = guarded(|| f(&arr(dims, &o), &arr(td, &t))).map_err(|p| ("unexpected-panic:cost".to_string(), format!("{:?} cost on output dims {:?}, target dims {:?} panicked: {}", kind, dims, td, p)))?;
                 cmp_t(&format!("{:?}-cost", kind), &got, &want, false).map_err(|(k, d)| (k, format!("{} (output/target dims {:?})", d, dims)))?;
                 Ok(n > 1)
             }
@@ -158,6 +163,14 @@ impl Case15 {
                 let tref = T::from_f64(&cur_ref.dims, &tv);
                 let cref = ref_cost(cost_kind, &cur_ref, &tref).map_err(|e| ("internal".to_string(), format!("{:?}", e)))?;
                 let want = ops::sum_all(&cref);
+                // every third stack: a backward call with a target the cost must refuse comes first (caught); the valid
+                // call that follows refers to the same stored output and returns its loss
+                if (*pseed ^ *xseed) % 3 == 0 {
+                    let mut bad = cur_ref.dims.clone();
+                    let l = bad.len() - 1;
+                    bad[l] += 2;
+                    let _ = guarded(|| model.backward(arr(&bad, &vec![0.5; numel(&bad)])));
+                }
                 let loss = match guarded(|| model.backward(arr(&cur_ref.dims, &tv))) {
                     Ok(l) => l as f64,
                     Err(p) => return e("unexpected-panic:model-backward", format!("Model::backward panicked (stack {:?}, input dims {:?}, cost {:?}): {}", specs, xd, cost_kind, p)),
@@ -196,8 +209,8 @@ impl CaseKind for Case15 {
     fn run(&self) -> Outcome {
         let mut k = KeyHasher::new("c15");
         let classes = match self {
-            Case15::Cost { kind, dims, wide, .. } => {
-                k.s(&format!("{:?}", kind)).us(dims).u(*wide as u64);
+            Case15::Cost { kind, dims, wide, tdims, .. } => {
+                k.s(&format!("{:?}", kind)).us(dims).u(*wide as u64).us(tdims.as_ref().unwrap_or(&vec![]));
                 vec![format!("cost:{:?}", kind), format!("cost-rank:{}", dims.len())]
             }
             Case15::Stack { specs, batch, rows, cols, cost, int_data, .. } => {
@@ -233,10 +246,19 @@ pub fn run(ctx: &Ctx) -> i32 {
     let shapes = crate::opcase::all_shapes(4, 3);
     let ns = shapes.len() as u64;
     st.merge(ctx.run_indexed("costs-all-small-shapes", ns * 2, Some("mse and cross-entropy closures on all output/target shapes of rank 1..4, sizes 1..3"), |i| {
-        Some(Case15::Cost { kind: if i % 2 == 0 { CostKind::Mse } else { CostKind::CrossEntropy }, dims: shapes[(i / 2) as usize].clone(), seed: i, wide: 0 })
+        Some(Case15::Cost { kind: if i % 2 == 0 { CostKind::Mse } else { CostKind::CrossEntropy }, dims: shapes[(i / 2) as usize].clone(), seed: i, wide: 0, tdims: None })
     }));
+    // targets whose shape differs from the output's but broadcasts against it
+    {
+        let pairs: Vec<(Vec<usize>, Vec<usize>)> = vec![(vec![3, 1], vec![3]), (vec![2, 3], vec![3]), (vec![3], vec![2, 1]), (vec![2, 1], vec![1, 3]), (vec![4, 1], vec![4]), (vec![2, 2, 1], vec![2]), (vec![1, 3], vec![3]), (vec![3], vec![1, 3]), (vec![2, 3], vec![1]), (vec![1], vec![2, 2])];
+        let np = pairs.len() as u64;
+        st.merge(ctx.run_indexed("costs-with-broadcast-targets", np * 2 * 2, None, |i| {
+            let (od, td) = pairs[(i % np) as usize].clone();
+            Some(Case15::Cost { kind: if (i / np) % 2 == 0 { CostKind::Mse } else { CostKind::CrossEntropy }, dims: od, seed: i + 900, wide: (i / np / 2) as u8, tdims: Some(td) })
+        }));
+    }
     st.merge(ctx.run_indexed("costs-on-outputs-of-any-magnitude", ns * 2 * 3, None, |i| {
-        Some(Case15::Cost { kind: if i % 2 == 0 { CostKind::Mse } else { CostKind::CrossEntropy }, dims: shapes[((i / 2) % ns) as usize].clone(), seed: i ^ ctx.seed.wrapping_mul(0x9E3779B1), wide: 1 + (i / 2 / ns) as u8 })
+        Some(Case15::Cost { kind: if i % 2 == 0 { CostKind::Mse } else { CostKind::CrossEntropy }, dims: shapes[((i / 2) % ns) as usize].clone(), seed: i ^ ctx.seed.wrapping_mul(0x9E3779B1), wide: 1 + (i / 2 / ns) as u8, tdims: None })
     }));
     // single dense layers: all sizes 1..4 x activations x input forms
     let acts = [Act::None, Act::Relu, Act::Sigmoid, Act::Softmax];
@@ -269,7 +291,7 @@ pub fn run(ctx: &Ctx) -> i32 {
         Some(Case15::Stack { specs: vec![LayerSpec::Dense { input, output, act }], batch, rows: 1, cols: 1, pseed: i + 11, xseed: i + 12, int_data: true, cost: if ce { CostKind::CrossEntropy } else { CostKind::Mse }, pscale })
     }));
     let strat2 = move || (prop::collection::vec(1..=6usize, 1..=4), any::<bool>(), any::<u64>()).boxed();
-    st.merge(ctx.run_prop("random-costs", total / 4, strat2, |(dims, ce, seed)| Some(Case15::Cost { kind: if *ce { CostKind::CrossEntropy } else { CostKind::Mse }, dims: dims.clone(), seed: *seed, wide: (*seed % 4) as u8 })));
+    st.merge(ctx.run_prop("random-costs", total / 4, strat2, |(dims, ce, seed)| Some(Case15::Cost { kind: if *ce { CostKind::CrossEntropy } else { CostKind::Mse }, dims: dims.clone(), seed: *seed, wide: (*seed % 4) as u8, tdims: None })));
     finish(
         ctx,
         st,
